@@ -435,6 +435,14 @@ func derivesFrom(v, src ssa.Value, depth int) bool {
 		return derivesFrom(x.X, src, depth+1)
 	case *ssa.ChangeInterface:
 		return derivesFrom(x.X, src, depth+1)
+	case *ssa.ChangeType:
+		// the same value under a defined type (type endpointLocation string)
+		return derivesFrom(x.X, src, depth+1)
+	case *ssa.Convert:
+		// between string types, and between a string type and bytes: the same text
+		if isStringType(x.Type()) && isStringType(x.X.Type()) {
+			return derivesFrom(x.X, src, depth+1)
+		}
 	}
 	return false
 }
@@ -746,14 +754,25 @@ func checkC06Post(r *Report, p *Prog) {
 	if st := oneField(r, rule, pb, fc, modPath, "IdpAuthnRequestForm", "SAMLResponse"); st != nil {
 		ok := false
 		detail := fc.AP(st.Val)
-		if c, okc := st.Val.(*ssa.Call); okc && c.Call.StaticCallee() != nil && strings.HasSuffix(c.Call.StaticCallee().String(), "Encoding).EncodeToString") {
-			buf := c.Call.Args[1]
+		// (the encoding may sit in a small helper and the text may wear a defined string type on the way:
+		// string(encodeMessage(buf)))
+		vfc, vv := fc, st.Val
+		for i := 0; i < 4; i++ {
+			_, peeled := throughParams(nil, vv)
+			nfc, nv := vfc.valueOfPureCall(peeled)
+			if nv == vv {
+				break
+			}
+			vfc, vv = nfc, nv
+		}
+		if c, okc := vv.(*ssa.Call); okc && c.Call.StaticCallee() != nil && strings.HasSuffix(c.Call.StaticCallee().String(), "Encoding).EncodeToString") {
+			_, buf := throughParams(vfc, c.Call.Args[1])
 			// the bytes are the serialisation of a document rooted at req.ResponseEl (directly, or through a helper that
 			// wraps its element argument in a fresh document)
 			if el := serialisedElement(p, pb, buf); el != nil && strings.HasSuffix(fc.AP(el), "IdpAuthnRequest.ResponseEl") {
 				ok = true
 			}
-			enc := fc.AP(c.Call.Args[0])
+			enc := vfc.AP(c.Call.Args[0])
 			if !strings.Contains(enc, "StdEncoding") {
 				ok = false
 				detail += " (encoding " + enc + ")"
